@@ -64,7 +64,10 @@ impl<'a> SplitKmer<'a> {
         &&& self.seq_len == self.seq@.len()
         &&& self.seq_len < usize::MAX - 64
         &&& qual_wf(self.qual, self.seq_len as int)
-        &&& (self.hash_gen.is_some() ==> self.hash_gen.unwrap().k == self.k && self.hash_gen.unwrap().rh.is_some() == self.rc)
+    }
+    // reads mode: the rolling hash is the from-scratch ntHash of the current window
+    spec fn hash_ok(&self) -> bool {
+        self.hash_gen.is_some() ==> self.hash_gen.unwrap().wf_for(self.win(), self.rc)
     }
 
     spec fn rep_fwd(&self, c: Seq<u8>) -> bool { rep3(self.upper, self.middle_base, self.lower, c, self.k as int) }
@@ -76,6 +79,7 @@ impl<'a> SplitKmer<'a> {
         &&& self.k - 1 <= self.index < self.seq_len
         &&& self.wok(self.p())
         &&& self.rep_fwd(self.win())
+        &&& self.hash_ok()
     }
 
     // the struct invariant between calls
